@@ -193,6 +193,46 @@ def init : St :=
     store := [(rootKeyPath, initRootKeyRec.pval), (keyringPath, initKeyringRec.pval)],
     written := [initRootKeyRec, initKeyringRec] }
 
+/-! ### `Unseal` / `ReloadKeyring`: reading the keyring record with the root key
+
+Both read `core/keyring` straight from the physical backend, check the header and decrypt with the root key:
+missing ⇒ `ErrBarrierNotInit` (Unseal) — fewer than 4 bytes ⇒ an error (finding F53, repaired: the unguarded
+`out.Value[:4]` used to panic) — term ≠ 1 ⇒ "term mis-match" — then `decrypt` with the keyring path: ≤ 5 bytes,
+unknown version byte, authentication failure (reported as `ErrBarrierInvalidKey`); the opened plaintext must be a
+serialised keyring. -/
+
+inductive UnsealOut where
+  | ok (terms : List Nat)
+  | notInit
+  | short
+  | termMismatch
+  | len
+  | version
+  | invalidKey
+  | notKeyring       -- an authentic record of the root key that is not a keyring: deserialisation fails
+  deriving DecidableEq, Repr
+
+def unsealKeyring : Option PVal → UnsealOut
+  | none => .notInit
+  | some (.Raw hdr len) =>
+      if len < 4 then .short else
+      match hdr with
+      | a :: b :: c :: d :: rest =>
+        if a * 16777216 + b * 65536 + c * 256 + d ≠ 1 then .termMismatch else
+        if len ≤ 5 then .len else
+        match rest with
+        | [v] => if v = 1 ∨ v = 2 then .invalidKey else .version
+        | _ => .version
+      | _ => .short
+  | some (.Rec t v b) =>
+      if t ≠ 1 then .termMismatch else
+      if v = 1 ∨ v = 2 then
+        match openSealed rootKeyId (aadFor v keyringPath) b with
+        | some (.keyring ts) => .ok ts
+        | some _ => .notKeyring
+        | none => .invalidKey
+      else .version
+
 inductive Op where
   | put (k : String) (v : Bytes)
   | get (k : String)
@@ -278,7 +318,9 @@ def tamperTrunc (pv : PVal) (n : Nat) : Option PVal :=
   match pv with
   | .Rec t v b => match b.plain.len? with
       | some l => if n < l + 5 + overhead then some (.Raw ((hdr5 t v).take n) n) else none
-      | none => none
+      -- the barrier's own records (serialised keyring / root key, never empty): their length is opaque to the model,
+      -- but any cut at or below header + AEAD overhead is a proper truncation
+      | none => if n ≤ 5 + overhead then some (.Raw ((hdr5 t v).take n) n) else none
   | .Raw _ _ => none
 
 def tamperExtend (pv : PVal) (n : Nat) : Option PVal :=
